@@ -14,6 +14,7 @@ long kv_live_bytes(void) { return -1; }
 long kv_total_blocks(void) { return -1; }
 long kv_peak_blocks(void) { return -1; }
 long kv_unknown_frees(void) { return -1; }
+long kv_pool_hits(void) { return -1; }
 void kv_alloc_fill(int on, int byte) { (void)on; (void)byte; }
 #else
 #include <stdlib.h>
@@ -28,51 +29,125 @@ void *__real_calloc(size_t, size_t);
 int __real_posix_memalign(void **, size_t, size_t);
 void *__real_aligned_alloc(size_t, size_t);
 
+#include <malloc.h>
+
 static pthread_mutex_t amu = PTHREAD_MUTEX_INITIALIZER;
 #define HS (1u << 22)
 static void *tab[HS];
 static size_t tabsz[HS];
+static unsigned char tabkind[HS];   /* 1 = plain malloc/calloc/realloc block, 2 = aligned */
+
+/* Hostile-allocator mode (KV_ALLOC_SHUFFLE=<seed>): freed blocks of up to 1024 bytes are parked in per-size-class pools and handed out again,
+ * a randomly chosen one that is large enough, with their old contents, to later requests of the same class.  Any address a program has
+ * freed may come back for any later allocation of a similar size: this is what the C library is allowed to do, made frequent and varied. */
+#define NCLS 65
+#define POOLCAP 48
+static void *pool[NCLS][POOLCAP];
+static int pooln[NCLS];
+static int shuffle_mode = -1;
+static unsigned long long shuffle_state;
+static long pool_hits;
+
+static void shuffle_init(void)
+{
+        const char *e = getenv("KV_ALLOC_SHUFFLE");
+        shuffle_mode = (e && *e) ? 1 : 0;
+        shuffle_state = 0x9E3779B97F4A7C15ULL ^ (unsigned long long)(e ? strtoull(e, NULL, 10) : 0) * 0xD1B54A32D192ED03ULL;
+        if (!shuffle_state) shuffle_state = 1;
+}
+static unsigned shuffle_rnd(void)
+{
+        shuffle_state ^= shuffle_state << 13; shuffle_state ^= shuffle_state >> 7; shuffle_state ^= shuffle_state << 17;
+        return (unsigned)(shuffle_state >> 33);
+}
+/* caller holds amu */
+static void *pool_take(size_t n)
+{
+        if (shuffle_mode <= 0 || n == 0 || n > 1024) return NULL;
+        int c = (int)((n + 15) >> 4);
+        if (!pooln[c] || (shuffle_rnd() & 3) == 0) return NULL;
+        int start = (int)(shuffle_rnd() % (unsigned)pooln[c]);
+        for (int k = 0; k < pooln[c]; k++) {
+                int i = (start + k) % pooln[c];
+                if (malloc_usable_size(pool[c][i]) >= n) {
+                        void *p = pool[c][i];
+                        pool[c][i] = pool[c][--pooln[c]];
+                        pool_hits++;
+                        return p;
+                }
+        }
+        return NULL;
+}
+/* caller holds amu; returns 1 when the block was parked instead of being released */
+static int pool_put(void *p, size_t n)
+{
+        if (shuffle_mode <= 0 || n == 0 || n > 1024) return 0;
+        int c = (int)((n + 15) >> 4);
+        if (pooln[c] >= POOLCAP) return 0;
+        pool[c][pooln[c]++] = p;
+        return 1;
+}
+long kv_pool_hits(void) { return pool_hits; }
 static long live, total, peak, unknown_free;
 static long live_bytes, peak_bytes;
 static int fill_on = 0; static unsigned char fill_byte = 0;
 
 void kv_alloc_fill(int on, int byte) { fill_on = on; fill_byte = (unsigned char)byte; }
 
-static void add(void *p, size_t n)
+static void add_kind(void *p, size_t n, int kind)
 {
         if (!p) return;
         pthread_mutex_lock(&amu);
         size_t h = ((uintptr_t)p >> 4) & (HS - 1);
         while (tab[h] && tab[h] != (void *)1) h = (h + 1) & (HS - 1);
-        tab[h] = p; tabsz[h] = n;
+        tab[h] = p; tabsz[h] = n; tabkind[h] = (unsigned char)kind;
         live++; total++; live_bytes += (long)n;
         if (live > peak) peak = live;
         if (live_bytes > peak_bytes) peak_bytes = live_bytes;
         pthread_mutex_unlock(&amu);
 }
 
-static int del(void *p)
+static void add(void *p, size_t n) { add_kind(p, n, 1); }
+
+/* returns 0 = unknown pointer, 1 = known, 2 = known and parked in a pool (must not be released); park = may be parked */
+static int del_park(void *p, int park)
 {
         int f = 0;
         pthread_mutex_lock(&amu);
         size_t h = ((uintptr_t)p >> 4) & (HS - 1);
         while (tab[h]) {
-                if (tab[h] == p) { tab[h] = (void *)1; live--; live_bytes -= (long)tabsz[h]; f = 1; break; }
+                if (tab[h] == p) {
+                        tab[h] = (void *)1; live--; live_bytes -= (long)tabsz[h]; f = 1;
+                        if (park && tabkind[h] == 1 && pool_put(p, tabsz[h])) f = 2;
+                        break;
+                }
                 h = (h + 1) & (HS - 1);
         }
         if (!f) unknown_free++;
         pthread_mutex_unlock(&amu);
         return f;
 }
+static int del(void *p) { return del_park(p, 0); }
 
 void *__wrap_malloc(size_t n)
 {
-        void *p = __real_malloc(n);
+        void *p = NULL;
+        if (shuffle_mode < 0) shuffle_init();
+        if (shuffle_mode > 0) { pthread_mutex_lock(&amu); p = pool_take(n); pthread_mutex_unlock(&amu); }
+        if (!p) p = __real_malloc(n);
         if (p && fill_on) memset(p, fill_byte, n);
         add(p, n);
         return p;
 }
-void *__wrap_calloc(size_t a, size_t b) { void *p = __real_calloc(a, b); add(p, a * b); return p; }
+void *__wrap_calloc(size_t a, size_t b)
+{
+        void *p = NULL;
+        if (shuffle_mode < 0) shuffle_init();
+        if (shuffle_mode > 0 && (b == 0 || a <= 1024 / b)) { pthread_mutex_lock(&amu); p = pool_take(a * b); pthread_mutex_unlock(&amu); if (p) memset(p, 0, a * b); }
+        if (!p) p = __real_calloc(a, b);
+        add(p, a * b);
+        return p;
+}
 void *__wrap_realloc(void *o, size_t n)
 {
         if (o) del(o);
@@ -83,11 +158,16 @@ void *__wrap_realloc(void *o, size_t n)
 int __wrap_posix_memalign(void **pp, size_t a, size_t n)
 {
         int r = __real_posix_memalign(pp, a, n);
-        if (!r) { if (fill_on) memset(*pp, fill_byte, n); add(*pp, n); }
+        if (!r) { if (fill_on) memset(*pp, fill_byte, n); add_kind(*pp, n, 2); }
         return r;
 }
-void *__wrap_aligned_alloc(size_t a, size_t n) { void *p = __real_aligned_alloc(a, n); add(p, n); return p; }
-void __wrap_free(void *p) { if (p) del(p); __real_free(p); }
+void *__wrap_aligned_alloc(size_t a, size_t n) { void *p = __real_aligned_alloc(a, n); add_kind(p, n, 2); return p; }
+void __wrap_free(void *p)
+{
+        if (shuffle_mode < 0) shuffle_init();
+        if (p && del_park(p, 1) == 2) return;
+        __real_free(p);
+}
 
 long kv_live_blocks(void) { return live; }
 long kv_live_bytes(void) { return live_bytes; }
